@@ -1187,14 +1187,17 @@ def accepted_means_handed_on(ctx) -> None:
                 paths = sem.paths_to(fi.node, ret)
             except ValueError:
                 raise AnalysisError(f"C01: too many paths in {fi.short()}")
+            ll_names = {"self.link_layer"} | {n_.targets[0].id for n_ in ast.walk(fi.node) if isinstance(n_, ast.Assign) and
+                                              isinstance(n_.targets[0], ast.Name) and dotted(n_.value) == "self.link_layer"}
             for conds, stmts in paths:
-                if "!truthy(self.link_layer)" in conds or "is(None,self.link_layer)" in conds:
+                if any(f"!truthy({nm})" in conds or f"is(None,{nm})" in conds for nm in ll_names):
                     continue          # no link layer configured: nothing can be sent at all
                 handed = False
                 for s_ in stmts:
                     for c in [x for x in ast.walk(s_) if isinstance(x, ast.Call)]:
                         d = dotted(c.func) or ""
-                        if d == "self.link_layer.send" or d in ("self.gn_ls_request", "self.gn_area_cbf_forwarding") or \
+                        if any(d == f"{nm}.send" for nm in ll_names) or G.is_ll_send(P, fi, c) or \
+                                d in ("self.gn_ls_request", "self.gn_area_cbf_forwarding") or \
                                 d.startswith("self.gn_data_request") or (d.endswith(".append") and "_ls_packet_buffers" in d):
                             handed = True
                 if not handed:
